@@ -470,6 +470,31 @@ def constructor_table(ctx: Ctx, rule: str) -> None:
                "peer ip -> left peer ip and ALWAYS, dynip -> PASSIVE; auth none/pubkey/psk -> NONE/PUBLIC/PSK (+psk); any other type -> ValueError")
 
 
+def route_overrides(ctx: Ctx, rule: str) -> None:
+    """Outside the tunnel constructor the only vpnconn_* parameters written are the two mirrored remote-net overrides of a forwarding
+    route (node parameters win over generated ones in VMTunnel.__init__, so any further pre-set key silently replaces a mirrored value)."""
+    fref = "vmnet/network.py:VMNetwork.configure_vpn_route"
+    fn = ctx.repo.func(fref)
+    ctx.touch(fref)
+    writes = []
+    for f in ctx.repo.all_functions(("vmnet/network.py", "vmnet/netconfig.py", "vmnet/interface.py", "vmnet/node.py")):
+        for st in ast.walk(f.node):
+            if isinstance(st, ast.Assign):
+                for t in st.targets:
+                    if isinstance(t, ast.Subscript):
+                        kp = key_parts(t.slice)
+                        if kp is not None and kp[0].startswith("vpnconn_"):
+                            writes.append((f.ref, kp[0], ast.unparse(t.value), ast.unparse(st.value)))
+    want = {("vms[i].params", "next_net"), ("vms[i + 1].params", "prev_net")}
+    got = {(recv, val) for ref, key, recv, val in writes if ref == fref and key == "vpnconn_remote_net"}
+    other = [w for w in writes if not (w[0] == fref and w[1] == "vpnconn_remote_net")]
+    ok = got == want and not other and len(writes) == 2
+    ctx.record(rule, "OWNER", fref, "the only vpnconn_* parameters pre-set outside VMTunnel.__init__: vpnconn_remote_net_<tunnel> of a forwarding hop, mirrored (this end <- the next net, the other end <- the previous net)",
+               ok, {"writes": [f"{w[0].split(':')[-1]}: {w[2]}[{w[1]}...] = {w[3]}" for w in writes]},
+               "" if ok else (f"another tunnel parameter is pre-set outside the tunnel constructor: {other[0][2]}[{other[0][1]}...] = {other[0][3]} (node parameters override the mirrored values "
+                              "the constructor generates)" if other else f"the remote-net overrides of a forwarding hop are no longer mirrored: {sorted(got)}"))
+
+
 def key_agreement(ctx: Ctx, rule: str) -> None:
     """The tunnel parameters read back elsewhere in the package are parameters the tunnel constructor writes."""
     import re as _re
@@ -525,6 +550,7 @@ def key_agreement(ctx: Ctx, rule: str) -> None:
 
 def run(ctx: Ctx) -> None:
     ctx.call(key_agreement, "8")
+    ctx.call(route_overrides, "8w")
     ctx.call(constructor_table, "9")
     ctx.call(constructor_mirror, "1", "2", "3", "4")
     ctx.call(peer_variant_table, "4t")
